@@ -162,11 +162,13 @@ macro_rules! dispatch_n {
             1 => $f::<1>($ctx, $idx),
             2 => $f::<2>($ctx, $idx),
             3 => $f::<3>($ctx, $idx),
+            4 => $f::<4>($ctx, $idx),
             5 => $f::<5>($ctx, $idx),
+            7 => $f::<7>($ctx, $idx),
             8 => $f::<8>($ctx, $idx),
             13 => $f::<13>($ctx, $idx),
             _ => unreachable!(),
         }
     };
 }
-pub const NS: [usize; 6] = [1, 2, 3, 5, 8, 13];
+pub const NS: [usize; 8] = [1, 2, 3, 4, 5, 7, 8, 13];
